@@ -3,6 +3,8 @@ have been observed for a 'held' verdict, and how the evidence is written."""
 from vdriver import Job, NCPU
 
 ENGINES = {
+    'h_race': dict(tulz=['threading', 'router'], setup_variants=['tsan'],
+                   kind='intended-use stress of Resource, ThreadPool, ConcurrentSubjectRouter and Thread under ThreadSanitizer (no interposer)'),
     'h_crouter': dict(tulz=['router'], spy=True, schedule_sensitive=True, setup_variants=['mon', 'asan'],
                       kind='multi-threaded histories on ConcurrentSubjectRouter with stamped calls/returns/callbacks and an interval-based linearizability check per notify'),
     'h_pool': dict(tulz=['threading'], spy=True, schedule_sensitive=True, setup_variants=['mon', 'asan'],
@@ -556,3 +558,42 @@ SPECS['C11'] = dict(
                   '(many tiny interval problems instead of one NP-hard search), in monitored and ASan builds.',
                   note='Schedules sampled with delays inside the router\'s lock and CPU pinning; trusted: the stamp counter and the client-boundary recording.',
                   technique='runtime monitoring: offline history checker (interval linearizability conditions) over stamped events'))
+
+
+# ----------------------------------------------------------------------------- data races (C15)
+
+def race_jobs(tier, seed):
+    q = tier == 'quick'
+    jobs = []
+    reps = 5 if q else 25
+    ops = 'ops=%d' % (60000 if q else 120000)
+    k = 0
+    for variant in (('tsan',) if q else ('tsan', 'tsan-clang')):
+        for rep in range(reps if variant == 'tsan' else 6):
+            for w in range(4):
+                jobs.append(Job('h_race', variant, pseed(seed, 'C15', k), w, 1, [ops, 'poolrounds=%d' % (40 if q else 80), 'threadstarts=%d' % (600 if q else 2000)],
+                                label='%s/workload%d/rep%d' % (variant, w, rep), tsan=True, timeout=1800))
+                k += 1
+    return jobs
+
+
+SPECS['C15'] = dict(
+    title='no data races under intended use',
+    jobs=race_jobs,
+    require={'any': {'lockSections': 50000, 'poolStarts': 1000, 'poolExpiryCycles': 20, 'poolStops': 20, 'routerOps': 10000, 'threadStarts': 500}},
+    evidence=lambda agg, samples, distinct, tier: cov(
+        agg.get('runs', 0), max(distinct, 0),
+        'case = one free-running workload under ThreadSanitizer (gcc, thorough also clang), each repeated because reports vary from run to run: (0) 4-32 threads in read/write sections of one Resource through raw calls '
+        'and guards, protecting plain data; (1) ThreadPool with one owner calling start (Runnable and closure)/clear/update/stop/getters while 1-8 workers run tasks, go idle past a 2-6 ms expiry timeout (set before the '
+        'first start), expire on update() and are collected; (2) 4-16 threads on ConcurrentSubjectRouter notify/subscribe/unsubscribe/shrink/exists/depth; (3) tulz::Thread start (Runnable, closure, function pointer '
+        'with lvalue arguments), polling isFinished()/isRunning(), join. Oracle: report blocks in the TSan log, de-duplicated by the pair of top tulz frames of the two accesses; a report without a tulz frame makes '
+        'the run inconclusive. Instrumented accesses are not countable: distinct = distinct (workload, repetition) runs; operations per component are listed under observed',
+        samples, observed=pick(agg, 'runs', 'runsResource', 'runsPool', 'runsRouter', 'runsThread', 'lockSections', 'poolTasksRun', 'poolStarts', 'poolUpdates', 'poolStops', 'poolClears', 'poolExpiryCycles',
+                               'routerOps', 'routerCallbacks', 'threadStarts', 'threadPolls', 'maxThreads')),
+    assumptions=['only code the workloads reach; TSan decides by happens-before, so the observed order matters little, but its bounded history can miss races between accesses far apart in time',
+                 'ThreadPool getters/start/stop from a second thread, setExpiryTimeout while workers exist, mute/unmute through a router handle and in-callback invalidation are not intended use and are not exercised',
+                 'the interposer is never linked into this build'],
+    manifest=dict(engine='h_race', text='ThreadSanitizer as the oracle over intended-use stress programs of the four threaded components, including worker start-up, expiry and shutdown windows; reports are counted '
+                  'from the log (halt_on_error=0) and keyed by the conflicting tulz frames.',
+                  note='Limited to reached code and to TSan\'s detection power; harness-side shared state is atomic so that the monitor is not the race.',
+                  technique='sanitizer: ThreadSanitizer (happens-before race detection) over intended-use stress workloads'))
